@@ -499,6 +499,9 @@ class RedeemScript(Script):
         quorum_m = op_code_to_number(self.commands[0])
         # 3 because quorum_m, OP_CHECKMULTISIG, and bitcoin off-by-one error
         quorum_n = len(self.commands) - 3
+        # the script has to state that number of pubkeys
+        if self.commands[-2] != number_to_op_code(quorum_n):
+            raise ValueError(f"Redeem script does not state {quorum_n} pubkeys: {self}")
         return quorum_m, quorum_n
 
     def signing_pubkeys(self):
